@@ -161,7 +161,11 @@ def binding_gaps(outer_node: ast.AST, inner_node: ast.AST, launch: ast.AST, file
             wn = set()
             for t, _ in gs:
                 wn |= _names(t)
-            if wn & inner_bound and not _independent(wn & inner_bound, dnames, idu, launch):
+            # predicates that also guard the launch are established for every run of the worker: their names cannot distinguish "bound" from "not bound"
+            lnames = set()
+            for t_, _p in lgs:
+                lnames |= _names(t_)
+            if wn & inner_bound and not _independent(wn & inner_bound, dnames - lnames, idu, launch):
                 raise AnalysisError(f"{filename}:{r.lineno}: the read of `{v}` is guarded by locals of {inner_node.name} ({sorted(wn & inner_bound)}); "
                                     "cannot relate them to the condition under which the enclosing function binds it")
             gaps.append((v, r, show(W), show(D)))
